@@ -949,3 +949,116 @@ Proof.
   - intros k x x' c Hk. cbn in Hk. lia.
   - intros k x Hk. cbn in Hk. lia.
 Qed.
+
+(* ------------------------------------------------------------------ what reduce can return *)
+Lemma last_only_one {A} (l : list A) x : nth_error l (length l - 1) = Some x -> last_only l = [x].
+Proof.
+  unfold last_only. induction l as [|a l IH]; intros H; [cbn in H; discriminate|].
+  destruct l as [|b l'].
+  - cbn in *. inversion H. reflexivity.
+  - replace (length (a :: b :: l') - 1)%nat with (S (length (b :: l') - 1))%nat in * by (cbn [length]; lia).
+    cbn [skipn nth_error] in *. apply IH. exact H.
+Qed.
+
+Lemma last_only_seq n : (0 < n)%nat -> last_only (seq 0 n) = [(n - 1)%nat].
+Proof. intros H. apply last_only_one. rewrite seq_length, nth_error_seq by lia. reflexivity. Qed.
+
+Lemma last_only_names_drop n li : (S li < n)%nat -> last_only (remove_nth li (seq 0 n)) = [(n - 1)%nat].
+Proof.
+  intros H. apply last_only_one.
+  rewrite remove_nth_length by (rewrite seq_length; lia). rewrite seq_length.
+  rewrite names_drop_nth by lia. f_equal. unfold up_level.
+  replace (n - 1 - 1 <? li)%nat with false by (symmetry; apply Nat.ltb_ge; lia). lia.
+Qed.
+
+Lemma reduce_cases t c t' m : validate t = true -> wf t -> reduce t c = TOk (t', m) ->
+  (t' = t /\ m = seq 0 (length t)) \/
+  (exists li, (S li < length t)%nat /\ t' = raw_drop t li /\ m = remove_nth li (seq 0 (length t))) \/
+  (t' = [leaf_level t] /\ m = [(length t - 1)%nat]).
+Proof.
+  intros V W H.
+  assert (Hn : (0 < length t)%nat) by (apply validate_iff in V; destruct V as (V & _); destruct t; [congruence | cbn; lia]).
+  assert (Tail : (if cfg_flatten c
+                  then match flatten t with TOk t2 => TOk (t2, last_only (seq 0 (length t))) | TErr e => TErr e end
+                  else TOk (t, seq 0 (length t))) = TOk (t', m) ->
+                 (t' = t /\ m = seq 0 (length t)) \/
+                 (exists li, (S li < length t)%nat /\ t' = raw_drop t li /\ m = remove_nth li (seq 0 (length t))) \/
+                 (t' = [leaf_level t] /\ m = [(length t - 1)%nat])).
+  { destruct (cfg_flatten c).
+    - destruct (flatten t) as [t2|e] eqn:Ef; [|discriminate]. intros H0. inversion H0; subst. right; right.
+      unfold flatten in Ef. apply mk_tree_ok in Ef. destruct Ef as [-> _].
+      split; [reflexivity | apply last_only_seq; exact Hn].
+    - intros H0. inversion H0; subst. left. split; reflexivity. }
+  unfold reduce in H. destruct (cfg_drop c) as [li|]; [|apply Tail; exact H].
+  destruct (li <? length t)%nat eqn:E; [|apply Tail; exact H].
+  destruct (drop_level t li) as [t1|e] eqn:Ed; [|discriminate].
+  destruct (drop_ok_facts t li t1 Ed) as [Hli ->].
+  destruct (cfg_flatten c).
+  - destruct (flatten (raw_drop t li)) as [t2|e] eqn:Ef; [|discriminate]. inversion H; subst. right; right.
+    unfold flatten in Ef. apply mk_tree_ok in Ef. destruct Ef as [-> _].
+    destruct (raw_drop_validate t li V W Hli) as [_ LL]. rewrite LL.
+    split; [reflexivity | apply last_only_names_drop; exact Hli].
+  - inversion H; subst. right; left. exists li. auto.
+Qed.
+
+Lemma spec_assemble t t' m (rows0 : list (list rec)) rows ncells :
+  spec_routing t' ncells rows0 = true ->
+  backfill (drop_cells t) (map (place m) rows0) = TOk rows ->
+  (forall row0 o, Election.path_ok t' row0 = true ->
+                  backfill_one (drop_cells t) (place m row0) = TOk o -> cell_ok t m o = true) ->
+  spec_c17 t m ncells rows = true.
+Proof.
+  intros Hs Hb Hcell. unfold spec_routing in Hs. apply andb_true_iff in Hs. destruct Hs as [Hl Hp].
+  apply backfill_spec in Hb. unfold spec_c17. apply andb_true_intro. split.
+  - rewrite <- (Forall2_length _ _ _ Hb), map_length. exact Hl.
+  - rewrite forallb_forall in Hp. clear Hl. revert rows Hb.
+    induction rows0 as [|row0 rows0 IH]; intros rows Hb; cbn in Hb; inversion Hb; subst; [reflexivity|].
+    cbn [forallb]. apply andb_true_intro. split.
+    + eapply Hcell; [apply Hp; left; reflexivity | eassumption].
+    + apply IH; [intros x Hx; apply Hp; right; exact Hx | assumption].
+Qed.
+
+Section PathTheorem.
+Variable cell rng : Type.
+Variable cache_ok : tree -> Markers.table -> bool.
+Variable mk_decide : tree -> Markers.table ->
+                     rng -> option (nat * node) -> list node -> list cell -> list rec * rng.
+Hypothesis decide_kids : forall t1 tb1 g p kids cs,
+  Forall (fun r => In (asg r) kids) (fst (mk_decide t1 tb1 g p kids cs)).
+Notation run := (run_mapping_model cell rng cache_ok mk_decide).
+
+(* C17 / C01: whatever the reduction, every completed cell is a root-to-leaf path of the STORED
+   tree, voted levels flagged direct, the others inferred = parent of the finer level *)
+Theorem backfilled_path t c tb cells g t' m rows g' :
+  tree_ok t -> validate t = true ->
+  reduce t c = TOk (t', m) ->
+  run t c tb cells g = TOk (rows, g') ->
+  spec_c17 t m (length cells) rows = true.
+Proof.
+  intros Ht V Hr H. pose proof (tree_ok_wf t Ht) as W.
+  unfold run_mapping_model in H. rewrite Hr in H.
+  set (tb' := if cfg_flatten c then Markers.flatten_table tb else tb) in *.
+  destruct (cache_ok t' tb'); cbn [negb] in H; [|discriminate].
+  destruct (run_type_assignment cell rng (mk_decide t' tb') t' cells g) as [[rows0 g0]| | |] eqn:El; try discriminate.
+  destruct (backfill (drop_cells t) (map (place m) rows0)) as [out|e] eqn:Eb; [|discriminate].
+  inversion H; subst out g0. clear H.
+  assert (Sound : tree_ok t' -> spec_routing t' (length cells) rows0 = true).
+  { intros Ht'. eapply (routing_sound cell rng (mk_decide t' tb')); [apply decide_kids | exact Ht' | exact El]. }
+  destruct (reduce_cases t c t' m V W Hr) as [[-> ->] | [(li & Hli & -> & ->) | [-> ->]]].
+  - apply (spec_assemble t t _ rows0 rows); [apply Sound; exact Ht | exact Eb|].
+    intros row0 o P Ho. destruct (path_ok_elim t row0 P) as (L & _ & _).
+    assert (E : backfill_one (drop_cells t) (place (seq 0 (length t)) row0) = TOk (place (seq 0 (length t)) row0)).
+    { unfold backfill_one. apply fold_present. intros k Hk. apply in_rev in Hk. apply in_seq in Hk.
+      rewrite drop_cells_length in Hk. rewrite lookup_place_id by exact L.
+      destruct (nth_error row0 k) eqn:E; [discriminate|]. apply nth_error_None in E. lia. }
+    rewrite E in Ho. inversion Ho; subst o. apply cell_ok_id; assumption.
+  - apply (spec_assemble t (raw_drop t li) _ rows0 rows);
+      [apply Sound; apply tree_ok_raw_drop; assumption | exact Eb|].
+    intros row0 o P Ho. eapply cell_ok_drop; eauto.
+  - apply (spec_assemble t [leaf_level t] _ rows0 rows);
+      [apply Sound; apply tree_ok_leaf; exact Ht | exact Eb|].
+    intros row0 o P Ho. destruct (path_ok_elim _ row0 P) as (L & _ & _). cbn [length] in L.
+    destruct row0 as [|r [|r2 row0]]; try discriminate.
+    apply (cell_ok_flat t r o); assumption.
+Qed.
+End PathTheorem.
